@@ -7,8 +7,10 @@ mkdir -p .build/bin evidence replays
 if [ -d instrument ]; then
   (cd instrument && go build -o ../.build/bin/instrument .)
 fi
-# warm the build cache for every harness
-awk '{print $2}' harness/MAP | sort -u | while read -r h; do
+# warm the build cache for every harness that exists (plain ones; the vrt
+# harnesses are built by ./check through the overlay)
+awk '$3=="plain" {print $2}' harness/MAP | sort -u | while read -r h; do
+  [ -d "harness/$h" ] || continue
   go build -tags verif -o ".build/bin/$h" "./harness/$h" 2>/dev/null || true
 done
 echo setup done
